@@ -1,4 +1,5 @@
 import NfpmModel.Spec.NameSpec
+import NfpmModel.Io
 /-
   C15  Conventional file name agrees with inner metadata; CLI writes where asked.
 
@@ -141,5 +142,45 @@ theorem override_stable (t : List (Bytes × Bytes)) (i : VInfo) (h : i.archOverr
 /-- non-vacuity -/
 example : debFileName { name := b!"foo", arch := b!"386", epoch := [50], version := b!"1.2.3", prerelease := b!"rc1", release := [52] }
     = b!"foo_1.2.3~rc1-4_i386.deb" := by decide
+
+/-! ### command-line target resolution (cmd.doPackage), stated outright -/
+
+/-- an explicit packager is never overridden by the target's extension -/
+theorem cli_explicit_packager_wins (target ext : Bytes) (isDir : Bool) (pk conv : Bytes) (h : pk ≠ []) :
+    (resolveTarget target ext isDir pk conv).map (·.1) = some pk := by
+  simp [resolveTarget, h]
+
+/-- the packager is inferred from the extension only when none is given, and only for a file target
+    that has an extension; otherwise the command fails (errInsufficientParams) -/
+theorem cli_packager_inferred (target ext : Bytes) (isDir : Bool) (conv : Bytes) :
+    resolveTarget target ext isDir [] conv =
+      if isDir || ext = [] then none
+      else some (ext.drop 1, if target = [] then conv else target) := by
+  by_cases h : (isDir || ext = []) = true
+  · simp [resolveTarget, h]
+  · have hd : isDir = false := by
+      cases isDir <;> simp_all
+    have he : ext ≠ [] := by
+      intro e; apply h; simp [e]
+    simp [resolveTarget, hd, he]
+
+/-- a file target is used exactly as requested -/
+theorem cli_file_target_exact (target ext pk conv : Bytes) (ht : target ≠ []) (hp : pk ≠ []) :
+    resolveTarget target ext false pk conv = some (pk, target) := by
+  simp [resolveTarget, hp, ht]
+
+/-- no target: the conventional name in the current directory -/
+theorem cli_no_target_conventional (ext pk conv : Bytes) (isDir : Bool) (hp : pk ≠ []) :
+    resolveTarget [] ext isDir pk conv = some (pk, conv) := by
+  simp [resolveTarget, hp]
+
+/-- an existing directory as target: the conventional name joined to it -/
+theorem cli_dir_target_joined (target ext pk conv : Bytes) (ht : target ≠ []) (hp : pk ≠ []) :
+    resolveTarget target ext true pk conv = some (pk, Path.join2 target conv) := by
+  simp [resolveTarget, hp, ht]
+
+/-- … and for a directory given in clean form the file lands directly inside it under the conventional name -/
+example : resolveTarget b!"out/dist" [] true b!"deb" b!"foo_1.0.0_amd64.deb" = some (b!"deb", b!"out/dist/foo_1.0.0_amd64.deb") := by
+  decide
 
 end Nfpm.Props.C15
